@@ -192,15 +192,18 @@ def run(tier):
         rc, out = core.sh([exe, sp, tp], timeout=900, env={"ASAN_OPTIONS": "detect_leaks=0", "STREAMDRV_LB": "1"})
         evs = core.read_ndjson(tp) if os.path.exists(tp) else []
         cases = [e for e in evs if e["e"] in ("seqcase", "gencase", "prodcase")]
+        ck.cov["fmtdict_cases"] = ck.cov.get("fmtdict_cases", 0) + sum(1 for e in cases if e.get("kind") == "fmtdict")
+        ck.cov["fmtdict_skipped"] = ck.cov.get("fmtdict_skipped", 0) + sum(1 for e in evs if e["e"] == "dseqskip")
         for e in cases:
             ck.case(key=(e["e"], e.get("delim"), e.get("ok"), e.get("minMatch"), e.get("kind"), len(e.get("list", [])), json.dumps(e.get("list", []))[:200], e.get("failBlock"), e.get("fallback")))
         if rc != 0:
-            culprit = batch[len(cases)] if len(cases) < len(batch) else batch[-1]
+            nline = len(cases) + sum(1 for e in evs if e["e"] == "dseqskip")      # script lines answered so far
+            culprit = batch[nline] if nline < len(batch) else batch[-1]
             san = re.search(r"(ERROR: AddressSanitizer: [\w-]+|runtime error: [^\n]*)", out)
             why = san.group(1)[:200] if san else "driver died rc=%d" % rc
             rp = ck.replay_path("seq-crash-%d.script" % bi, culprit + "\n")
             ck.violation("%s on %s" % (why, culprit[:200]), rp, ident="crash|" + why[:60])
-            lines[bi + per:bi + per] = batch[len(cases) + 1:]
+            lines[bi + per:bi + per] = batch[nline + 1:]
             continue
         ok, tr = core.validate_trace("SeqTrace", "SeqTrace.cfg", tp, tag="c17", timeout=1800)
         ck.model("SeqTrace(batch %d)" % bi, tr, {"lines": len(evs)})
@@ -233,6 +236,8 @@ def run(tier):
             ok, tr = core.validate_trace("SeqTrace", "SeqTrace.cfg", tp + ".rest", tag="c17", timeout=1800)
         if ok:
             ck.traces(len(batch))
+    if not ck.cov.get("fmtdict_cases"):
+        ck.warn("no formatted-dictionary (DSEQ) case was run: the dictionary could not be built")
     for l in lines[:3] + lines[-2:]:
         ck.sample(l[:300])
     ck.assumptions += ["lists whose matches do not match the source, offset 0 with a match length, or lengths overrunning the source in delimiter-free mode are outside the documented validation scope and are not generated",
